@@ -63,6 +63,24 @@ def main() -> int:
     # the real code writes `logfile` etc. into the cwd: work in a private scratch directory
     import tempfile
     scratch = tempfile.mkdtemp(prefix=f"verif-{prop}-")
+    # watchdog: the real code runs in-process; a change that makes it loop for ever must not hang the check.
+    # A time-out is infrastructure trouble (exit 2), never a verdict.
+    import signal
+
+    def _watchdog(signum, frame):
+        # not an exception: harness code that catches exceptions around calls of the real code must not be able to
+        # turn the time-out into a "raises" finding
+        print(f"INFRA-ERROR {prop}: watchdog: the {tier} run exceeded {limit} s (VERIF_WATCHDOG_S)", flush=True)
+        import shutil
+        shutil.rmtree(scratch, ignore_errors=True)
+        os._exit(2)
+    try:
+        limit = int(os.environ.get("VERIF_WATCHDOG_S", "5400" if tier == "quick" else "14400"))
+    except ValueError:
+        limit = 5400
+    if hasattr(signal, "SIGALRM") and limit > 0:
+        signal.signal(signal.SIGALRM, _watchdog)
+        signal.alarm(limit)
     try:
         return run(prop, tier, seed, args.replay, scratch)
     except InfraError as e:
